@@ -71,6 +71,74 @@ theorem dedup_spec (prev : PyDate) (l r : List PyDate) (h : dedup prev l = .ok r
 
 variable (o : Ops)
 
+theorem mapE_length {α β} (f : α → Except PyErr β) (l : List α) (r : List β) (h : mapE f l = .ok r) :
+    r.length = l.length := by
+  induction l generalizing r with
+  | nil => simp [mapE] at h; subst h; rfl
+  | cons a as ih =>
+    simp only [mapE] at h
+    split at h
+    · cases h
+    · split at h
+      · cases h
+      · rename_i bs hbs
+        simp only [Except.ok.injEq] at h; subst h
+        simp [ih bs hbs]
+
+/-- the forward loop only ever appends to its accumulator -/
+theorem forwardLoop_rolls_aux (p : Params) (fuel k : Nat) (next : PyDate) (acc l : List PyDate)
+    (h : forwardLoop o p fuel k next acc = .ok l) : ∃ rolls : List PyDate, l = acc ++ rolls ∧ True ∧ True := by
+  induction fuel generalizing k next acc with
+  | zero => simp [forwardLoop] at h
+  | succ n ih =>
+    unfold forwardLoop at h
+    by_cases hlt : next.serial < p.termination.serial
+    · simp only [hlt, if_true] at h
+      split at h
+      · cases h
+      · obtain ⟨rolls, hl, _, _⟩ := ih _ _ _ h
+        exact ⟨next :: rolls, by simp [hl], trivial, trivial⟩
+    · simp only [hlt, if_false, Except.ok.injEq] at h
+      exact ⟨[], by simp [h], trivial, trivial⟩
+
+/-- unpack a successful `post` -/
+theorem post_ok (p : Params) (ds : List PyDate) (r : Result) (h : post o p ds = .ok r) :
+    ∃ (t' : PyDate) (first : PyDate) (rest : List PyDate),
+      (if p.adjustTermination then o.adjust p.termination = .ok t' else t' = p.termination) ∧
+      (if p.adjustTermination then (p.effective :: ds.drop 1).dropLast ++ [t'] else p.effective :: ds.drop 1)
+        = first :: rest ∧
+      dedup first rest = .ok r.dates ∧ 2 ≤ r.dates.length ∧ r.termination = t' := by
+  unfold post at h
+  simp only at h
+  by_cases hat : p.adjustTermination = true
+  · simp only [hat, if_true] at h ⊢
+    cases ha : o.adjust p.termination with
+    | error e => simp [ha] at h
+    | ok t' =>
+      simp only [ha] at h
+      split at h
+      · cases h
+      · rename_i first rest heq
+        cases hd : dedup first rest with
+        | error e => simp [hd] at h
+        | ok out =>
+          simp only [hd] at h
+          split at h
+          · cases h
+          · simp only [Except.ok.injEq] at h; subst h
+            exact ⟨t', first, rest, rfl, heq, hd, by simp only; omega, rfl⟩
+  · have hat' : p.adjustTermination = false := by simpa using hat
+    simp only [hat', Bool.false_eq_true, if_false] at h ⊢
+    simp only [List.drop_one] at h
+    cases hd : dedup p.effective ds.tail with
+    | error e => simp [hd] at h
+    | ok out =>
+      simp only [hd] at h
+      split at h
+      · cases h
+      · simp only [Except.ok.injEq] at h; subst h
+        exact ⟨p.termination, p.effective, ds.tail, rfl, by simp, hd, by simp only; omega, rfl⟩
+
 /-- C16: a returned schedule is strictly increasing and has at least two dates (otherwise the
 library's error is raised). -/
 theorem generate_strictly_increasing (p : Params) (fuel : Nat) (r : Result)
@@ -78,23 +146,11 @@ theorem generate_strictly_increasing (p : Params) (fuel : Nat) (r : Result)
   unfold generate at h
   split at h
   · cases h
-  · simp only at h
-    split at h
+  · split at h
     · cases h
-    · split at h
-      · cases h
-      · rename_i ds2 term heq
-        split at h
-        · cases h
-        · rename_i first rest
-          split at h
-          · cases h
-          · rename_i out hout
-            split at h
-            · cases h
-            · rename_i hlen
-              simp only [Except.ok.injEq] at h; subst h
-              exact ⟨(dedup_spec first rest out hout).2.1, by simp only; omega⟩
+    · rename_i ds hds
+      obtain ⟨t', first, rest, _, _, hd, hlen, _⟩ := post_ok o p ds r h
+      exact ⟨(dedup_spec first rest r.dates hd).2.1, hlen⟩
 
 /-- C16: the first date of a returned schedule is the effective date itself (never adjusted). -/
 theorem generate_first_is_effective (p : Params) (fuel : Nat) (r : Result)
@@ -102,50 +158,114 @@ theorem generate_first_is_effective (p : Params) (fuel : Nat) (r : Result)
   unfold generate at h
   split at h
   · cases h
-  · simp only at h
-    split at h
+  · split at h
     · cases h
     · rename_i ds hds
+      obtain ⟨t', first, rest, _, heq, hd, hlen, _⟩ := post_ok o p ds r h
+      have hfirst := (dedup_spec first rest r.dates hd).1
+      rw [hfirst]
+      by_cases hat : p.adjustTermination = true
+      · simp only [hat, if_true] at heq
+        cases hdr : List.drop 1 ds with
+        | nil =>
+          rw [hdr] at heq
+          simp at heq
+          obtain ⟨e1, e2⟩ := heq
+          subst e2
+          simp [dedup] at hd
+          rw [← hd] at hlen
+          simp at hlen
+        | cons x xs =>
+          rw [hdr] at heq
+          simp [List.dropLast] at heq
+          exact congrArg some heq.1.symm
+      · have hat' : p.adjustTermination = false := by simpa using hat
+        simp only [hat', Bool.false_eq_true, if_false] at heq
+        simp at heq
+        exact congrArg some heq.1.symm
+
+/-- C16: the last date of a returned schedule falls on the termination date — adjusted iff requested —
+and that is the termination date the schedule reports. (Stated on serial numbers: when the last roll
+date and the termination date coincide after adjustment they are one date.) -/
+theorem generate_last_is_termination (p : Params) (fuel : Nat) (r : Result)
+    (h : generate o p fuel = .ok r)
+    (hbody : ∀ ds, body o p fuel = .ok ds → 2 ≤ ds.length ∧ ds.getLast? = some p.termination) :
+    r.dates.getLast?.map (·.serial) = some r.termination.serial ∧
+      (if p.adjustTermination then o.adjust p.termination = .ok r.termination else r.termination = p.termination) := by
+  unfold generate at h
+  split at h
+  · cases h
+  · split at h
+    · cases h
+    · rename_i ds hds
+      obtain ⟨hlen2, hlast⟩ := hbody ds hds
+      obtain ⟨t', first, rest, ht', heq, hd, hlen, hterm⟩ := post_ok o p ds r h
+      have hl := (dedup_spec first rest r.dates hd).2.2
+      refine ⟨?_, by rw [hterm]; exact ht'⟩
+      rw [hl, ← heq, hterm]
+      by_cases hat : p.adjustTermination = true
+      · simp [hat]
+      · have hat' : p.adjustTermination = false := by simpa using hat
+        simp only [hat', Bool.false_eq_true, if_false] at ht' ⊢
+        subst ht'
+        -- last of effective :: ds.drop 1 is the last of ds because ds has at least two dates
+        cases ds with
+        | nil => simp at hlen2
+        | cons a as =>
+          cases as with
+          | nil => simp at hlen2
+          | cons b bs =>
+            simp only [List.drop_succ_cons, List.drop_zero]
+            have : (a :: b :: bs).getLast? = (b :: bs).getLast? := by simp [List.getLast?_cons_cons]
+            rw [this] at hlast
+            simp [List.getLast?_cons_cons, hlast]
+
+/-- both generation branches end their list with the unadjusted termination date and produce at least
+two dates when the effective date is before the termination date -/
+theorem body_ends_with_termination (p : Params) (fuel : Nat) (ds : List PyDate)
+    (hlt : p.effective.serial < p.termination.serial) (h : body o p fuel = .ok ds) :
+    2 ≤ ds.length ∧ ds.getLast? = some p.termination := by
+  unfold body at h
+  split at h
+  · split at h
+    · cases h
+    · simp only at h
       split at h
       · cases h
-      · rename_i ds2 term heq
-        split at h
-        · cases h
-        · rename_i first rest
-          split at h
-          · cases h
-          · rename_i out hout
-            split at h
-            · cases h
-            · simp only [Except.ok.injEq] at h; subst h
-              have hfirst := (dedup_spec first rest out hout).1
-              simp only
-              rw [hfirst]
-              -- `first` is the head of ds2, which is effective :: …
-              split at heq
-              · split at heq
-                · cases heq
-                · rename_i t' ht'
-                  simp only [Except.ok.injEq, Prod.mk.injEq] at heq
-                  obtain ⟨h1, _⟩ := heq
-                  cases hd : List.drop 1 ds with
-                  | nil =>
-                    rw [hd] at h1
-                    simp at h1
-                    obtain ⟨e1, e2⟩ := h1
-                    subst e2
-                    simp [dedup] at hout
-                    subst hout
-                    simp_all
-                  | cons x xs =>
-                    rw [hd] at h1
-                    simp [List.dropLast] at h1
-                    exact congrArg some h1.1.symm
-              · simp only [Except.ok.injEq, Prod.mk.injEq] at heq
-                obtain ⟨h1, _⟩ := heq
-                have : p.effective :: List.drop 1 ds = first :: rest := h1
-                simp at this
-                exact congrArg some this.1.symm
+      · simp only [Except.ok.injEq] at h; subst h
+        refine ⟨by simp, ?_⟩
+        rw [List.getLast?_append]
+        simp
+  · split at h
+    · cases h
+    · rename_i un hun
+      split at h
+      · cases h
+      · rename_i adj hadj
+        simp only [Except.ok.injEq] at h; subst h
+        refine ⟨?_, by simp⟩
+        -- the forward loop appends at least the effective date once more, so `adj` is non-empty
+        cases fuel with
+        | zero => simp [forwardLoop] at hun
+        | succ n =>
+          unfold forwardLoop at hun
+          simp only [hlt, if_true] at hun
+          split at hun
+          · cases hun
+          · rename_i nd hnd
+            obtain ⟨rolls, hl, _, _⟩ := forwardLoop_rolls_aux o p n 2 nd ([p.effective] ++ [p.effective]) un hun
+            have : 2 ≤ un.length := by rw [hl]; simp
+            have hd1 : 1 ≤ (un.drop 1).length := by simp; omega
+            have hadjlen := mapE_length o.adjust (un.drop 1) adj hadj
+            simp; omega
+
+/-- C16: for an effective date before the termination date, the last date of every returned schedule is
+the termination date, adjusted iff requested. -/
+theorem schedule_last_is_termination (p : Params) (fuel : Nat) (r : Result)
+    (hlt : p.effective.serial < p.termination.serial) (h : generate o p fuel = .ok r) :
+    r.dates.getLast?.map (·.serial) = some r.termination.serial ∧
+      (if p.adjustTermination then o.adjust p.termination = .ok r.termination else r.termination = p.termination) :=
+  generate_last_is_termination o p fuel r h (fun ds hds => body_ends_with_termination o p fuel ds hlt hds)
 
 /-- The full statement of "regenerating the schedule returns the same dates". -/
 def RegenerateFixedPoint : Prop :=
@@ -178,21 +298,12 @@ theorem termination_unchanged_without_adjust (p : Params) (fuel : Nat) (r : Resu
   unfold generate at h
   split at h
   · cases h
-  · simp only at h
-    split at h
+  · split at h
     · cases h
-    · split at h
-      · cases h
-      · rename_i ds2 term heq
-        simp only [hat, Bool.false_eq_true, if_false, Except.ok.injEq, Prod.mk.injEq] at heq
-        obtain ⟨_, h2⟩ := heq
-        split at h
-        · cases h
-        · split at h
-          · cases h
-          · split at h
-            · cases h
-            · simp only [Except.ok.injEq] at h; subst h; exact h2.symm
+    · rename_i ds hds
+      obtain ⟨t', _, _, ht', _, _, _, hterm⟩ := post_ok o p ds r h
+      simp only [hat, Bool.false_eq_true, if_false] at ht'
+      rw [hterm, ht']
 
 /-- Counterexample to the full statement on the code as it is: WEEKEND calendar, FOLLOWING, BACKWARD,
 monthly, 6 Jan 2020 → Saturday 6 Jun 2020: the first generation rolls on the 6th (6 Feb, 6 Mar, …),
